@@ -26,6 +26,12 @@ CHECKS = {
     "C09": _c("exploration",
               "Differential: each host program is run with every call site inlined, every call site nested, a random mix, and nested one level deeper; all variants must produce identical user-code runs and streams (pairwise and vs the flattening model); every child graph evaluation must be at its parent's current time inside the parent's bracket; timers inside idle children must fire at their time.",
               "DESIGN.md section 3 C09", TRUST, "runtime monitoring: differential inline/nested execution + child-clock trace monitor"),
+    "C14": _c("fault_enumeration",
+              "Exhaustive single-fault enumeration per generated program: node x {start, evaluate, stop} x occurrence (1..3) x cleanup_on_error {on, off}, plus sampled fault pairs. A per-node-instance trace automaton over user-level start/stop/eval logs and LifecycleObserver events checks: start hook at most once, evaluations only between start and stop, exactly one stop iff the start completed, starts in index order and stops in reverse per graph (root and nested children), every started node stopped before run() returns (or before executor release with cleanup off), before/after event pairing, and that run() throws the original what().",
+              "DESIGN.md section 3 C14", TRUST, "runtime monitoring with fault injection: exhaustive single-fault enumeration + lifecycle trace automaton"),
+    "C15": _c("exploration",
+              "Differential against the fault-free twin of each program: exception_time_series on a node or try_except_ around a generated sub-graph; throws in first/consecutive/scattered/all activations. One error tick per throwing cycle in that cycle carrying what(); run continues; nodes outside the dependency cone have identical runs; the thrower is activated in the same cycles as fault-free; nodes upstream of the thrower inside the wrapped sub-graph and independent timer nodes ranked after it run identically.",
+              "DESIGN.md section 3 C15", TRUST, "runtime monitoring with fault injection: differential trace comparison against the fault-free run"),
     "C18": _c("exploration",
               "(a) exhaustive operation sequences (length<=3 quick, <=4 thorough, alphabet of 28 ops) plus random long sequences on the tree's NodeScheduler over a bare NodeSchedulerState: after every op all query answers equal the pending-set specification; (b) scheduler-script nodes in graphs interleaved with input-driven evaluations: wake-up times and in-node query answers equal the model.",
               "DESIGN.md section 3 C18", TRUST + " SchedModel is the specification.", "runtime monitoring: exhaustive small-scope state-machine conformance + in-graph trace vs model"),
